@@ -234,6 +234,13 @@ type replayFile struct {
 	Shrinks   int      `json:"shrink_attempts"`
 	TraceHash string   `json:"trace_hash"`
 	Trace     []string `json:"trace"`
+	// Sequence replay: the failure depends on state that earlier runs left in the process
+	// (hidden package-level state in the tree under test). The replay is then the run
+	// sequence First, First+Step, ..., Last of this seed, executed in one fresh process.
+	SeqFirst int  `json:"sequence_first,omitempty"`
+	SeqStep  int  `json:"sequence_step,omitempty"`
+	SeqLast  int  `json:"sequence_last,omitempty"`
+	Sequence bool `json:"sequence,omitempty"`
 }
 
 type known struct {
@@ -319,6 +326,38 @@ type isoResult struct {
 	Obs   uint64   `json:"obs"`
 	Trace []string `json:"trace"`
 	Nontr bool     `json:"nontr"`
+}
+
+var runsOverrideFlag *int
+
+// executeSequence runs the run sequence first, first+step, ..., last of one seed in a fresh
+// process and returns the result of the last run.
+func executeSequence(s *Spec, tier string, seed uint64, first, step, last, runsOverride int) result {
+	dir, err := os.MkdirTemp("", "seq-")
+	if err != nil {
+		fmt.Fprintln(os.Stderr, "sequence execution:", err)
+		os.Exit(2)
+	}
+	defer os.RemoveAll(dir)
+	out := filepath.Join(dir, "out.json")
+	args := []string{"-execseq", fmt.Sprintf("%d,%d,%d", first, step, last), "-execout", out, "-tier", tier, "-seed", fmt.Sprint(seed)}
+	if runsOverride >= 0 {
+		args = append(args, "-runs", fmt.Sprint(runsOverride))
+	}
+	c := exec.Command(os.Args[0], args...)
+	c.Stderr = os.Stderr
+	c.Env = os.Environ()
+	if err := c.Run(); err != nil {
+		fmt.Fprintln(os.Stderr, "sequence execution failed:", err)
+		os.Exit(2)
+	}
+	ob, err := os.ReadFile(out)
+	var ir isoResult
+	if err != nil || json.Unmarshal(ob, &ir) != nil {
+		fmt.Fprintln(os.Stderr, "sequence execution: no result")
+		os.Exit(2)
+	}
+	return result{fail: ir.Fail, rec: ir.Rec, obs: ir.Obs, trace: ir.Trace, nontr: ir.Nontr}
 }
 
 // executeIsolated runs one tape in a fresh process of this binary.
@@ -497,6 +536,8 @@ func Main(s *Spec) {
 	knownPath := flag.String("known", "/verif/known_findings.json", "known findings file")
 	replay := flag.String("replay", "", "replay a replay file")
 	runsOverride := flag.Int("runs", -1, "override the number of random runs")
+	runsOverrideFlag = runsOverride
+	execSeq := flag.String("execseq", "", "internal: first,step,last - execute this run sequence, report the last run")
 	eventlog := flag.Bool("eventlog", false, "internal: record per-run event log (determinism self-test)")
 	eventOut := flag.String("eventout", "", "write merged event log here")
 	oneRun := flag.Int("run", -1, "execute only this run number, with trace")
@@ -537,6 +578,22 @@ func Main(s *Spec) {
 	plan := s.Plan(*tier)
 	if *runsOverride >= 0 {
 		plan.Random = *runsOverride
+	}
+	if *execSeq != "" {
+		var first, step, last int
+		fmt.Sscanf(*execSeq, "%d,%d,%d", &first, &step, &last)
+		if s.Setup != nil {
+			s.Setup(*tier)
+		}
+		var res result
+		for run := first; run <= last; run += step {
+			res = execute(s, genTape(s, *seed, run, plan), *tier, run == last)
+		}
+		ob, _ := json.Marshal(isoResult{Fail: res.fail, Rec: res.rec, Obs: res.obs, Trace: res.trace, Nontr: res.nontr})
+		if os.WriteFile(*execOut, ob, 0o644) != nil {
+			os.Exit(2)
+		}
+		os.Exit(0)
 	}
 	if plan.WallLimit == 0 {
 		plan.WallLimit = 20 * time.Minute
@@ -643,14 +700,37 @@ func runWorker(s *Spec, tier string, seed uint64, wi, wn int, plan Plan, ks []kn
 			shr = res.rec
 			fin = rerun(shr, true)
 		}
+		seqFirst, isSeq := 0, false
 		if fin.fail == nil {
-			fmt.Fprintf(os.Stderr, "NONDETERMINISM: run %d failed (%s) but its recorded tape does not fail on replay\n", run, res.fail.Class)
+			// The tape alone does not fail: the failure may depend on state earlier runs of this
+			// worker left behind in the process. Re-execute suffixes of this worker's run sequence
+			// in a fresh process; the shortest suffix that reproduces the class is the replay.
+			for k := 2; ; k *= 2 {
+				first := run - (k-1)*wn
+				if first < wi {
+					first = wi
+				}
+				sr := executeSequence(s, tier, seed, first, wn, run, *runsOverrideFlag)
+				if sr.fail != nil && sr.fail.Class == res.fail.Class {
+					fin, shr, seqFirst, isSeq = sr, res.rec, first, true
+					break
+				}
+				if first == wi {
+					break
+				}
+			}
+		}
+		if fin.fail == nil {
+			fmt.Fprintf(os.Stderr, "NONDETERMINISM: run %d failed (%s) but neither its recorded tape nor this worker's run sequence fails again in a fresh process\n", run, res.fail.Class)
 			os.Exit(2)
 		}
 		if shr == nil {
 			shr = []uint64{}
 		}
-		rf := replayFile{Property: s.Property, Engine: s.Engine, Tier: tier, Seed: seed, Run: run, Class: fin.fail.Class, Key: fin.fail.Key,
+		if isSeq {
+			fin.fail.Msg = fmt.Sprintf("[depends on state left in the process by earlier calls: reproduced by the run sequence %d, %d, ..., %d in a fresh process, not by run %d alone] ", seqFirst, seqFirst+wn, run, run) + fin.fail.Msg
+		}
+		rf := replayFile{SeqFirst: seqFirst, SeqStep: wn, SeqLast: run, Sequence: isSeq, Property: s.Property, Engine: s.Engine, Tier: tier, Seed: seed, Run: run, Class: fin.fail.Class, Key: fin.fail.Key,
 			Message: fin.fail.Msg, Tape: shr, OrigLen: len(res.rec), Shrinks: attempts, TraceHash: traceHash(fin.trace, fin.obs), Trace: fin.trace}
 		os.MkdirAll(replays, 0o755)
 		path := filepath.Join(replays, fmt.Sprintf("%s-%d-%d.json", s.Property, seed, run))
@@ -927,7 +1007,19 @@ func doReplay(s *Spec, path string, ks []known) int {
 	if s.Setup != nil {
 		s.Setup(tier)
 	}
-	res := execute(s, tape.NewReplay(rf.Tape), tier, true)
+	var res result
+	if rf.Sequence {
+		plan := s.Plan(tier)
+		if runsOverrideFlag != nil && *runsOverrideFlag >= 0 {
+			plan.Random = *runsOverrideFlag
+		}
+		fmt.Printf("  (sequence replay: runs %d, %d, ..., %d of seed %d in this fresh process)\n", rf.SeqFirst, rf.SeqFirst+rf.SeqStep, rf.SeqLast, rf.Seed)
+		for run := rf.SeqFirst; run <= rf.SeqLast; run += rf.SeqStep {
+			res = execute(s, genTape(s, rf.Seed, run, plan), tier, run == rf.SeqLast)
+		}
+	} else {
+		res = execute(s, tape.NewReplay(rf.Tape), tier, true)
+	}
 	for _, l := range res.trace {
 		fmt.Println("  " + l)
 	}
